@@ -22,7 +22,7 @@ func frostKeys(n int) (map[party.ID]*frost.Config, error) {
 	for _, id := range ids[:n] {
 		c, ok := o.Results[id].(*frost.Config)
 		if !ok {
-			return nil, fmt.Errorf("frost keygen failed: %v %v %s", o.Errors, o.StartErr, o.Panic)
+			return nil, prereq("frost keygen", o)
 		}
 		out[id] = c
 	}
@@ -36,7 +36,7 @@ func frostKeysTaproot(n int) (map[party.ID]*frost.TaprootConfig, error) {
 	for _, id := range ids[:n] {
 		c, ok := o.Results[id].(*frost.TaprootConfig)
 		if !ok {
-			return nil, fmt.Errorf("frost taproot keygen failed: %v %v %s", o.Errors, o.StartErr, o.Panic)
+			return nil, prereq("frost taproot keygen", o)
 		}
 		out[id] = c
 	}
@@ -73,7 +73,7 @@ func realSpec(sc scen, sid string) (*sess.Spec, error) {
 			cr, ok1 := o.Results["a"].(*doerner.ConfigReceiver)
 			cs, ok2 := o.Results["b"].(*doerner.ConfigSender)
 			if !ok1 || !ok2 {
-				return nil, fmt.Errorf("doerner keygen failed: %v %s", o.Errors, o.Panic)
+				return nil, prereq("doerner keygen", o)
 			}
 			c = [2]interface{}{cr, cs}
 			keyCache["doerner"] = c
@@ -122,10 +122,21 @@ func cmpKeys(sc scen, pids []party.ID) (map[party.ID]*cmp.Config, error) {
 	for _, id := range pids {
 		cfg, ok := o.Results[id].(*cmp.Config)
 		if !ok {
-			return nil, fmt.Errorf("cmp keygen failed: %v %s", o.Errors, o.Panic)
+			return nil, prereq("cmp keygen", o)
 		}
 		m[id] = cfg
 	}
 	keyCache[k] = m
 	return m, nil
+}
+
+// prereqError: the key material a scenario needs could not be produced.  Key generation is the
+// subject of C01/C02; here it is a prerequisite, and its failure makes the scenario unrunnable
+// (reported as not explored), not a delivery-order violation.
+type prereqError struct{ msg string }
+
+func (e *prereqError) Error() string { return e.msg }
+
+func prereq(what string, o *sess.Outcome) error {
+	return &prereqError{fmt.Sprintf("%s (prerequisite) did not complete: errors=%v start=%v panic=%q stuck=%v hung=%q", what, o.Errors, o.StartErr, o.Panic, o.Stuck, o.Hung)}
 }
